@@ -261,6 +261,46 @@ class OwnAnalyzer:
         n = self.sites.get(t[1] if isinstance(t, tuple) else t)
         return expr_str(n)[:50] if n is not None else str(t)
 
+    def int_value(self, e, st, depth=0):
+        """value of an integer expression built from constants, locals with a known constant value, NULL tests of locals whose
+        NULL-ness is known, ?:, | & + - and lookups in constant tables of the unit (no memory is read, nothing is called); else None"""
+        if depth > 12:
+            return None
+        e = strip_casts(e)
+        c = const_val(e)
+        if c is not None:
+            return c
+        k = e.get('k')
+        if k == 'ref' and e.get('dk') in ('local', 'param'):
+            v = st.vals.get(('v', e['d']), UNK)
+            return v[1] if v[0] == 'int' else None
+        if k == 'bin' and e['op'] in ('==', '!=') and (is_null_const(e['l']) or is_null_const(e['r'])):
+            o = strip_casts(e['l'] if is_null_const(e['r']) else e['r'])
+            if o.get('k') == 'ref' and o.get('dk') in ('local', 'param'):
+                v = st.vals.get(('v', o['d']), UNK)
+                if v == NULL:
+                    return int(e['op'] == '==')
+                if v == NN or v[0] == 'tok':
+                    return int(e['op'] == '!=')
+            return None
+        if k == 'cond':
+            cv = self.int_value(e['c'], st, depth + 1)
+            if cv is None:
+                return None
+            return self.int_value(e['t'] if cv else e['e'], st, depth + 1)
+        if k == 'bin' and e['op'] in ('|', '&', '+', '-'):
+            l, r = self.int_value(e['l'], st, depth + 1), self.int_value(e['r'], st, depth + 1)
+            if l is None or r is None:
+                return None
+            return {'|': l | r, '&': l & r, '+': l + r, '-': l - r}[e['op']]
+        if k == 'idx' and strip_casts(e['b']).get('k') == 'ref' and strip_casts(e['b']).get('dk') not in ('local', 'param'):
+            from .parse import _const_table
+            tb = _const_table(self.u, strip_casts(e['b']))
+            i = self.int_value(e['i'], st, depth + 1)
+            if tb is not None and i is not None and 0 <= i < len(tb):
+                return tb[i]
+        return None
+
     # ---- expression evaluation: returns list of (state, value) ---------------------------------------------------
     def eval(self, e, st, node):
         e0 = e
@@ -269,6 +309,10 @@ class OwnAnalyzer:
         if e.get('id') in node.skip:
             v = st.vals.get(('cond', e['id']), UNK)
             return [(st, v)]
+        if k in ('cond', 'bin', 'idx') and 'ty' in e0 and self.u.ty(e0['ty'])['c'] == 'int' and const_val(e0) is None:
+            iv_ = self.int_value(e, st)
+            if iv_ is not None:
+                return [(st, ('int', iv_))]
         if self.u.ty(e0['ty'])['c'] == 'int' and const_val(e0) is not None and k != 'ref':
             return [(st, ('int', const_val(e0)))]
         if is_null_const(e0):
